@@ -23,6 +23,7 @@ type MCall struct {
 type MBeh struct {
 	LatNs int64 `json:"lat_ns,omitempty"` // simulated latency (callback_slow); 0 = returns at once
 	Err   bool  `json:"err,omitempty"`    // returns an error (callback_error)
+	Nest  int   `json:"nest,omitempty"`   // >0: before returning, the function itself calls Memoize for key Nest-1 (a nested computation; always a higher-numbered key, so there is no cycle)
 }
 
 // MemoWork is a C17 workload.
@@ -34,7 +35,7 @@ type MemoWork struct {
 	Tasks   [][]MCall `json:"tasks"`
 	Beh     [][]MBeh  `json:"beh"`                // Beh[key][k]: behaviour of the k-th execution for that key (cycled)
 	Held    int       `json:"held"`               // >=0: every execution for this key parks on a latch that opens only after all callers of the other keys have returned (key independence); -1: none
-	KeyKind int       `json:"key_kind,omitempty"` // 0: string keys "key<i>"; 1: a named ~string key type whose String() masks the key (all keys print alike); 2: string keys that differ only in case / trailing blank
+	KeyKind int       `json:"key_kind,omitempty"` // 0: string keys "key<i>"; 1: a named ~string key type whose String() masks the key (all keys print alike); 2: string keys that differ only in case / trailing blank; 3: long keys (70 bytes, or 4099) that differ only in their last byte; 4: includes the empty key
 }
 
 func (w *MemoWork) Sim() SimSpec { return w.P }
@@ -169,6 +170,19 @@ func (w *MemoWork) Exec(x *Exec) {
 		memoize = func(key int, fn func() (*cache.Item[int], error)) (*cache.Item[int], error) {
 			return m.Memoize(nearKeys[key%len(nearKeys)], fn)
 		}
+	case 3, 4:
+		m := gogu.NewMemoizer[string, int](time.Duration(w.ExpNs), time.Duration(w.CleanNs))
+		n := 69
+		if w.Keys == 3 {
+			n = 4098
+		}
+		prefix := strings.Repeat("k", n)
+		memoize = func(key int, fn func() (*cache.Item[int], error)) (*cache.Item[int], error) {
+			if w.KeyKind == 4 && key == 0 {
+				return m.Memoize("", fn)
+			}
+			return m.Memoize(prefix+fmt.Sprint(key), fn)
+		}
 	default:
 		m := gogu.NewMemoizer[string, int](time.Duration(w.ExpNs), time.Duration(w.CleanNs))
 		memoize = func(key int, fn func() (*cache.Item[int], error)) (*cache.Item[int], error) {
@@ -199,25 +213,34 @@ func (w *MemoWork) Exec(x *Exec) {
 					simrt.Sleep(time.Duration(d))
 				}
 				key := c.Key
-				fn := func() (*cache.Item[int], error) {
-					id, kth := sh.enter(key, ti, simrt.Stamp(), x.S.Now())
-					b := MBeh{}
-					if l := w.Beh[key]; len(l) > 0 {
-						b = l[kth%len(l)]
+				var mkfn func(key, depth int) func() (*cache.Item[int], error)
+				mkfn = func(key, depth int) func() (*cache.Item[int], error) {
+					return func() (*cache.Item[int], error) {
+						id, kth := sh.enter(key, ti, simrt.Stamp(), x.S.Now())
+						b := MBeh{}
+						if l := w.Beh[key]; len(l) > 0 {
+							b = l[kth%len(l)]
+						}
+						if key == w.Held {
+							latch.Wait()
+						} else if b.LatNs > 0 {
+							simrt.Sleep(time.Duration(b.LatNs))
+						} else {
+							simrt.Yield()
+						}
+						if j := b.Nest - 1; j > key && j < w.Keys && depth < 2 && w.Held < 0 {
+							// a nested computation: its result is not part of the recorded history, its
+							// executions are (single-flight and attribution apply to them like to any other)
+							memoize(j, mkfn(j, depth+1))
+						}
+						sh.leave(id, simrt.Stamp(), x.S.Now(), b.Err)
+						if b.Err {
+							return nil, fmt.Errorf("exec-%d", id)
+						}
+						return items[id], nil
 					}
-					if key == w.Held {
-						latch.Wait()
-					} else if b.LatNs > 0 {
-						simrt.Sleep(time.Duration(b.LatNs))
-					} else {
-						simrt.Yield()
-					}
-					sh.leave(id, simrt.Stamp(), x.S.Now(), b.Err)
-					if b.Err {
-						return nil, fmt.Errorf("exec-%d", id)
-					}
-					return items[id], nil
 				}
+				fn := mkfn(key, 0)
 				r.Inv, r.TI = simrt.Stamp(), x.S.Now()
 				func() {
 					defer func() {
@@ -480,9 +503,19 @@ func genC17(r *simrt.Rand, tier string, idx uint64) Workload {
 	if w.Keys >= 2 && r.Bool(0.2) {
 		w.Held = r.Intn(w.Keys)
 	}
+	// nested computations: in some runs the function of key k asks the same Memoizer for key k+1
+	if w.Keys >= 2 && w.Held < 0 && r.Intn(6) == 0 {
+		for k := 0; k < w.Keys-1; k++ {
+			for i := range w.Beh[k] {
+				if r.Bool(0.6) {
+					w.Beh[k][i].Nest = k + 2
+				}
+			}
+		}
+	}
 	// the key type and spelling are the caller's choice: mostly plain strings, sometimes a named
 	// ~string type whose printed form masks the key, sometimes keys differing only in case/blanks
-	w.KeyKind = []int{0, 0, 0, 0, 1, 1, 2, 0}[r.Intn(8)]
+	w.KeyKind = []int{0, 0, 0, 0, 1, 1, 2, 3, 3, 4}[r.Intn(10)]
 	// call instants: same instant, staggered inside/outside the callback latency, around the expiry instant
 	instants := []int64{0, 0, 0, 1, 2 * ms, 5 * ms, 5*ms + 1, 29 * ms, 30 * ms, 31 * ms, w.ExpNs - 1, w.ExpNs, w.ExpNs + 1, w.ExpNs + 5*ms, w.ExpNs + 30*ms, 2 * w.ExpNs}
 	for t := 0; t < nt; t++ {
